@@ -83,6 +83,12 @@ func crashCase(h txh.History, k int, after bool, nowOffset int64, warmups int) (
 				out.countOff = true
 				continue
 			}
+			if knownCount && len(vr.Pre[i].Items) == 0 && d[i].Count == int64(len(vr.Post[i].Items)) && d[i].Count > 0 && len(d[i].Items) <= 1 && (len(d[i].Items) == 0 || d[i].Items[0].V == "") {
+				// same root cause again: the store was empty (its emptied root node is still there), the victim's
+				// count was published early, so the B-tree walks the empty root and serves its cleared slot
+				out.countOff = true
+				continue
+			}
 			if ok, why := txh.SameItems(d[i].Items, m[i]); !ok {
 				return fmt.Sprintf("store %s: %s", h.Stores[i].Name, why)
 			}
